@@ -231,6 +231,9 @@ class Generator:
                 elif word == "item":
                     parts = [p.strip() for p in rest.split("|")]
                     out.append(self.emit_item(u, parts[0], parts[1], parse_kv(parts[2:])))
+                elif word == "const_bytes":
+                    parts = [p.strip() for p in rest.split("|")]
+                    out.append(self.emit_const_bytes(u, parts[0], parts[1]))
                 elif word == "assume_anchor":
                     parts = [p.strip() for p in rest.split("|")]
                     buf = []
@@ -302,6 +305,34 @@ class Generator:
         elif not hits:
             raise LostAnchor("assumption anchor '%s' no longer matches %s" % (label, rel))
         u.assumption_anchors.append("%s: %s [%s]" % (rel, label, norm(text)[:160]))
+
+    # ------------------------------------------------------------------
+    def emit_const_bytes(self, u, rel, name):
+        """`const N: &[u8] = &[a, b, ..];` re-emitted in the only form Verus accepts for a byte-slice
+        constant; the literal list is copied from the real text and the ensures is checked by Verus."""
+        sf = self.src(rel)
+        it = sf.find_item("const", name)
+        if it is None:
+            raise LostAnchor("const %s not found in %s" % (name, rel))
+        toks = sf.toks[it["kw_idx"]:it["end"] + 1]
+        txt = [t.text for t in toks]
+        try:
+            eq = txt.index("=")
+        except ValueError:
+            raise LostAnchor("const %s has no initialiser" % name)
+        init = txt[eq + 1:-1]
+        if init[:2] != ["&", "["] or init[-1] != "]" or " ".join(txt[2:eq]) not in (": & [ u8 ]", ": & 'static [ u8 ]"):
+            raise LostAnchor("const %s is no longer a byte-slice literal: %s" % (name, " ".join(txt)[:120]))
+        elems = [e for e in init[2:-1] if e != ","]
+        for e in elems:
+            if not re.match(r"^(0x[0-9a-fA-F_]+|[0-9_]+)(u8)?$", e):
+                raise LostAnchor("const %s: unexpected element %s" % (name, e))
+        lit = ", ".join(elems)
+        spec = ", ".join((e if e.endswith("u8") else e + "u8") for e in elems)
+        u.extraction.append("const %s (%s): byte-slice constant re-emitted as `exec const` with checked ensures (declaration form only; values copied)" % (name, rel))
+        u.items.append(dict(kind="const", name=name, file=rel, sha1=hashlib.sha1(" ".join(txt).encode()).hexdigest()))
+        return ("exec const %s: &'static [u8]\n    ensures %s@ == seq![%s]\n{ let a: &'static [u8; %d] = &[%s]; a }" % (
+            name, name, spec, len(elems), lit))
 
     # ------------------------------------------------------------------
     def emit_item(self, u, rel, kindname, kv):
